@@ -343,3 +343,28 @@ func H_C13_file_specials() {
 	verifAssert(s.f == nil, "C13.file.specials-open-nothing")
 	verifReach("C13.file.specials")
 }
+
+// C13 (write faults incl. partial writes): the descriptor the sink holds accepts only part of the event and fails; the sink
+// reopens its file and retries. It may report success only if the whole event was then written, in one piece, to the
+// file it now holds.
+func H_C13_file_partial_write() {
+	fsInit()
+	s := &FileSink{Path: fsDir, FileName: "audit.log"}
+	ctx := context.Background()
+	first := nondetString()
+	s.Process(ctx, &Event{Type: "t", Formatted: map[string][]byte{"json": []byte(first)}})
+	if s.f == nil {
+		return
+	}
+	verifPlantFailingFile(&s.f)
+	data := verifBig(nondetString())
+	verifAssume(data != "") // (natively verifBig never returns an empty string)
+	_, err := s.Process(ctx, &Event{Type: "t", Formatted: map[string][]byte{"json": []byte(data)}})
+	if err == nil {
+		verifAssert(s.f != nil && verifFDIsName(s.f, fsActive), "C13.file.partial.reopened-the-log-file")
+		if s.f != nil {
+			verifAssert(verifFDEndsWith(s.f, data), "C13.file.partial.success-only-after-the-whole-event-was-written")
+		}
+		verifReach("C13.file.partial.ok")
+	}
+}
